@@ -45,6 +45,7 @@ def create_service(config_path: str, sname: str):
 
     try:
         config = read_config(config_path)
+        service_name_handler.check_sname_available(sname)
         __client_service = Service()
         sid = __client_service.handle_create_config(config)
         service_name_handler.record_sname_id_pair(sname, sid)
